@@ -92,7 +92,7 @@ pub fn run(ctx: &Ctx) {
     set_rule("C08", "pairs of key_encrypt runs that differ only in the identities (same ephemeral key, payload key, plaintext and read schedule), pairs of pass_encrypt runs that differ only in the password, and CLI runs with keyrings whose names are >= 12 random characters. Oracles: length = 132 (36) + 32 per chunk + plaintext length with one chunk per non-empty read; parsed by the documented layout the file is magic, the supplied ephemeral public key (salt), counters 0..n-1, flags 0..0 1, lengths = the reads, and nothing else; the two files of a pair have equal length and identical cleartext fields; no public key (raw, halves, hex, base64, keyring encoding), password or keyring name occurs as a substring. Non-trivial = non-empty plaintext and differing identities; distinct by hash of the case");
     ctx.assume("needles are >= 12 bytes so a chance occurrence has probability < 2^-64");
     let max = if ctx.quick() { 300_000 } else { 2 << 20 };
-    ctx.pbt("identity_swap_pairs", ctx.n(10_000, 300_000), || (gen::plain_strategy(max), any::<[u64; 6]>()).prop_flat_map(|(plain, k)| { let l = plain.len; (Just(plain), gen::rsched_for(l), Just(k)) }).prop_map(|(plain, prs, k)| Pair { plain, prs, s1: k[0], r1: k[1], s2: k[2], r2: k[3], e: k[4], p: k[5] }), check_pair);
+    ctx.pbt("identity_swap_pairs", ctx.n(25_000, 300_000), || (gen::plain_strategy(max), any::<[u64; 6]>()).prop_flat_map(|(plain, k)| { let l = plain.len; (Just(plain), gen::rsched_for(l), Just(k)) }).prop_map(|(plain, prs, k)| Pair { plain, prs, s1: k[0], r1: k[1], s2: k[2], r2: k[3], e: k[4], p: k[5] }), check_pair);
     ctx.pbt("password_swap_pairs", ctx.n(100, 2_000), || (gen::small_plain(400), gen::rsched_strategy(), gen::password_strategy(), gen::password_strategy(), any::<u64>()).prop_map(|(plain, prs, w1, w2, salt)| PassPair { plain, prs, w1, w2, salt }), check_pass_pair);
     ctx.shrink_iters.store(20, std::sync::atomic::Ordering::Relaxed);
     ctx.pbt("cli_files", ctx.n(40, 800), || (prop_oneof![3 => 0usize..3000, 1 => Just(CS), 1 => Just(CS + 1), 1 => CS..3 * CS], ("[a-zA-Z0-9]{12,24}", "[a-zA-Z0-9]{12,24}"), any::<u64>(), prop::bool::weighted(0.25), any::<bool>()).prop_map(|(len, names, seed, pass_mode, to_stdout)| CliCase { len, names, seed, pass_mode, to_stdout }), check_cli);
